@@ -185,6 +185,10 @@ func (st *State) doCall(instr *ssa.Call, c *ssa.CallCommon, fnv Value, args []Va
 		r := st.applySpec(spec, sig, args, pos, key, callee)
 		return st.finishCall(instr, r, deferred)
 	}
+	if hasBody && st.u.abstract[key] {
+		r := st.unmodelled(key+" (repository helper outside the subset, abstracted)", sig, args, resT)
+		return st.finishCall(instr, r, deferred)
+	}
 	if hasBody {
 		// inline
 		depth := st.frame.depth + 1
